@@ -143,7 +143,7 @@ pub fn spec(id: &str) -> Option<PropSpec> {
             )
         }),
         "C11" => Some(base(
-            vec![cs(&CRYPT, "sc-roundtrip", 1200, 24000, false), cs(&CRYPT, "sc-roundtrip-big", BIG_LENS, BIG_LENS * 6, true), cs(&CRYPT, "sc-tamper", 1500, 30000, false), cs(&CRYPT, "sc-bitflip-all", 6, 36, false), cs(&CONC, "conc-sc", 150, 1500, false), cs(&CONC, "conc-sc-tamper", 100, 1000, false)],
+            vec![cs(&CRYPT, "sc-roundtrip", 1200, 24000, false), cs(&CRYPT, "sc-roundtrip-big", BIG_LENS, BIG_LENS * 6, true), cs(&CRYPT, "sc-tamper", 1500, 30000, false), cs(&CRYPT, "sc-bitflip-all", 6, 36, false), cs(&CRYPT, "sc-roundtrip-huge", 4, 10, true), cs(&CONC, "conc-sc", 150, 1500, false), cs(&CONC, "conc-sc-tamper", 100, 1000, false)],
             "cases = (group, scheme, message length {0..40, 100..140, LEB128 boundaries 127/128, 16383/16384, 64 KiB; class `sc-roundtrip-big`: all 182 lengths whose framed size is within 1 of 2^16..2^25 or of 168*2^j / 136*2^j, j=7..14}, codec at rest, crash/duplicate faults | relay perturbation kind {u, v bit/length/prefix, w, label, splices, in-flight truncation/extension/bit flip} | every single bit of a short ciphertext in `sc-bitflip-all`); \
              non-trivial = any altered ciphertext or a run with crash/duplicate faults",
             vec!["cur-blst"],
@@ -154,7 +154,7 @@ pub fn spec(id: &str) -> Option<PropSpec> {
             vec!["cur-blst"],
         )),
         "C13" => Some(base(
-            vec![cs(&CRYPT, "tl-beacon", 1000, 15000, false), cs(&CRYPT, "tl-beacon-big", BIG_LENS, BIG_LENS * 6, true), cs(&CRYPT, "tl-tamper", 2400, 36000, false), cs(&CRYPT, "tl-bitflip-all", 12, 54, false), cs(&CONC, "conc-tl", 100, 1000, false)],
+            vec![cs(&CRYPT, "tl-beacon", 1000, 15000, false), cs(&CRYPT, "tl-beacon-big", BIG_LENS, BIG_LENS * 6, true), cs(&CRYPT, "tl-tamper", 2400, 36000, false), cs(&CRYPT, "tl-bitflip-all", 12, 54, false), cs(&CRYPT, "tl-beacon-huge", 4, 10, true), cs(&CONC, "conc-tl", 100, 1000, false)],
             "cases = (group, scheme, beacon kind {whole key, t-of-n recombined over a lossy/duplicating transport}, message length (class `tl-beacon-big`: all 182 lengths whose framed size is within 1 of 2^16..2^25 or of 168*2^j / 136*2^j, j=7..14), identifier kind, fault-script length | perturbation kind distinguishing header, authenticated prefix of w and padding, incl. in-place rewrites of the length prefix to values around 2^7..2^128 | every single bit in `tl-bitflip-all`); non-trivial = recombined beacons, runs with faults, all altered ciphertexts",
             vec!["cur-blst"],
         )),
